@@ -707,3 +707,13 @@ def split_statements(block):
     if rest:
         out.append(rest)
     return [x for x in out if x]
+
+
+def strip_lead(st):
+    """statement text without leading comments / attributes"""
+    st = st.strip()
+    while True:
+        s2 = re.sub(r"^(//[^\n]*\n\s*|/\*.*?\*/\s*|#\[[^\]]*\]\s*)", "", st, count=1, flags=re.S)
+        if s2 == st:
+            return st
+        st = s2
